@@ -21,13 +21,20 @@ def memShape (c : MemCtx) : List Tok :=
      .memRef c.idx, .kw .assign, .memRefParent c.idx, .kw .semi, .kw .closeBrace]
   else [.memRef c.idx, .kw .allocOpen, .num c.min, .kw .comma, .num c.max, .kw .falseCloseSemi]
 
-/-- the text printed for data segment `k` when the running offset is `off` -/
-def segShape (mode : Mode) (k off : Nat) (seg : DataSeg) : List Tok :=
-  if seg.passive then (if isExt mode then [.segName k, .kw .assignDsPlus, .num off, .kw .semi] else [])
-  else if isExt mode then
+/-- `d<k>=ds+off;` -/
+def ptrShape (k off : Nat) : List Tok := [.segName k, .kw .assignDsPlus, .num off, .kw .semi]
+
+/-- `LOAD_DATA((*i->mem), offset, <source>, len);` -/
+def loadShape (mode : Mode) (k off : Nat) (seg : DataSeg) : List Tok :=
+  if isExt mode then
     [.kw .loadDataOpen, .memUse seg.mem, .kw .comma, .expr seg.offset, .kw .commaDsPlus, .num off, .kw .comma, .num seg.bytes.length, .kw .closeSemi]
   else
     [.kw .loadDataOpen, .memUse seg.mem, .kw .comma, .expr seg.offset, .kw .comma, .segName k, .kw .comma, .num seg.bytes.length, .kw .closeSemi]
+
+/-- the text printed for data segment `k` when the running offset is `off`: in the external modes the pointer variable of EVERY
+    segment is set (memory.init may refer to active segments too, /repo af3520e), then active segments are loaded -/
+def segShape (mode : Mode) (k off : Nat) (seg : DataSeg) : List Tok :=
+  (if isExt mode then ptrShape k off else []) ++ (if seg.passive then [] else loadShape mode k off seg)
 
 theorem runMem_gen (c : MemCtx) : runMem memLoop c = memShape c := by
   obtain ⟨idx, mn, mx, sh⟩ := c
@@ -37,7 +44,7 @@ theorem runMem_gen (c : MemCtx) : runMem memLoop c = memShape c := by
 theorem runSeg_gen (mode : Mode) (k off : Nat) (seg : DataSeg) :
     runSeg segLoop mode k off seg = (segShape mode k off seg, off + seg.bytes.length) := by
   cases mode <;> cases hp : seg.passive <;>
-    simp [runSeg, segLoop, stepSeg, guardSeg, hp, pieceSeg, segShape, isExt]
+    simp [runSeg, segLoop, stepSeg, guardSeg, hp, pieceSeg, segShape, ptrShape, loadShape, isExt]
 
 theorem blobOf_gen (mode : Mode) (datas : List DataSeg) : blobOf blobLoop mode datas = datas.flatMap (·.bytes) := by
   unfold blobOf
@@ -54,9 +61,12 @@ theorem arraysOf_gen (mode : Mode) (datas : List DataSeg) : arraysOf arrayLoop m
 def memEmitted (c : MemCtx) : Emitted :=
   if c.shared then .allocShared c.idx c.min c.max else .alloc c.idx c.min c.max
 
-def segEmitted (mode : Mode) (k off : Nat) (seg : DataSeg) : Option Emitted :=
-  if seg.passive then (if isExt mode then some (.ptrInit k off) else none)
-  else some (if isExt mode then .loadBlob seg.mem seg.offset off seg.bytes.length else .loadArr seg.mem seg.offset k seg.bytes.length)
+def loadEmitted (mode : Mode) (k off : Nat) (seg : DataSeg) : Emitted :=
+  if isExt mode then .loadBlob seg.mem seg.offset off seg.bytes.length else .loadArr seg.mem seg.offset k seg.bytes.length
+
+/-- the statements printed for data segment `k` -/
+def segEmitted (mode : Mode) (k off : Nat) (seg : DataSeg) : List Emitted :=
+  (if isExt mode then [.ptrInit k off] else []) ++ (if seg.passive then [] else [loadEmitted mode k off seg])
 
 theorem parseOne_mem (c : MemCtx) (rest : List Tok) : parseOne (memShape c ++ rest) = some (memEmitted c, rest) := by
   obtain ⟨idx, mn, mx, sh⟩ := c
@@ -66,13 +76,12 @@ theorem memShape_ne_nil (c : MemCtx) : memShape c ≠ [] := by
   obtain ⟨idx, mn, mx, sh⟩ := c
   cases sh <;> simp [memShape]
 
-theorem parseOne_seg (mode : Mode) (k off : Nat) (seg : DataSeg) (e : Emitted) (h : segEmitted mode k off seg = some e) (rest : List Tok) :
-    parseOne (segShape mode k off seg ++ rest) = some (e, rest) ∧ segShape mode k off seg ≠ [] := by
-  cases mode <;> cases hp : seg.passive <;> simp [segEmitted, hp, isExt] at h <;> subst h <;>
-    simp [segShape, hp, isExt, parseOne]
+theorem parseOne_ptr (k off : Nat) (rest : List Tok) : parseOne (ptrShape k off ++ rest) = some (.ptrInit k off, rest) := by
+  simp [ptrShape, parseOne]
 
-theorem segShape_nil (mode : Mode) (k off : Nat) (seg : DataSeg) (h : segEmitted mode k off seg = none) : segShape mode k off seg = [] := by
-  cases mode <;> cases hp : seg.passive <;> simp [segEmitted, hp, isExt] at h <;> simp [segShape, hp, isExt]
+theorem parseOne_load (mode : Mode) (k off : Nat) (seg : DataSeg) (rest : List Tok) :
+    parseOne (loadShape mode k off seg ++ rest) = some (loadEmitted mode k off seg, rest) := by
+  cases mode <;> simp [loadShape, loadEmitted, isExt, parseOne]
 
 theorem parseN_cons (n : Nat) (p rest : List Tok) (e : Emitted) (h : parseOne (p ++ rest) = some (e, rest)) (hp : p ≠ []) :
     parseN (n + 1) (p ++ rest) = (parseN n rest).map (e :: ·) := by
@@ -115,7 +124,27 @@ def memsEmitted (imports : Nat) (shared : List Bool) : Nat → List (Nat × Nat)
 
 def segsEmitted (mode : Mode) : Nat → Nat → List DataSeg → List Emitted
   | _, _, [] => []
-  | k, off, seg :: rest => (segEmitted mode k off seg).toList ++ segsEmitted mode (k + 1) (off + seg.bytes.length) rest
+  | k, off, seg :: rest => segEmitted mode k off seg ++ segsEmitted mode (k + 1) (off + seg.bytes.length) rest
+
+theorem parseN_seg (mode : Mode) (k off : Nat) (seg : DataSeg) (rest : List Tok) (n : Nat) :
+    parseN (n + (segEmitted mode k off seg).length) (segShape mode k off seg ++ rest) =
+      (parseN n rest).map (segEmitted mode k off seg ++ ·) := by
+  have hptr : ∀ (m : Nat) (tail : List Tok), parseN (m + 1) (ptrShape k off ++ tail) = (parseN m tail).map (Emitted.ptrInit k off :: ·) :=
+    fun m tail => parseN_cons m _ tail _ (parseOne_ptr k off tail) (by simp [ptrShape])
+  have hload : ∀ (m : Nat) (tail : List Tok), parseN (m + 1) (loadShape mode k off seg ++ tail) = (parseN m tail).map (loadEmitted mode k off seg :: ·) :=
+    fun m tail => parseN_cons m _ tail _ (parseOne_load mode k off seg tail) (by cases mode <;> simp [loadShape, isExt])
+  unfold segShape segEmitted
+  cases he : isExt mode <;> cases hp : seg.passive
+  · simp only [Bool.false_eq_true, ↓reduceIte, List.nil_append, List.length_cons, List.length_nil, Nat.zero_add]
+    rw [hload]
+    rfl
+  · simp
+  · simp only [↓reduceIte, Bool.false_eq_true, List.append_assoc, List.length_append, List.length_cons, List.length_nil, Nat.zero_add]
+    rw [show n + (1 + 1) = (n + 1) + 1 by omega, hptr, hload]
+    cases parseN n rest <;> simp
+  · simp only [↓reduceIte, List.append_nil, List.length_cons, List.length_nil, Nat.zero_add]
+    rw [hptr]
+    rfl
 
 theorem parseN_segs (mode : Mode) : ∀ (datas : List DataSeg) (k off : Nat),
     parseN (segsEmitted mode k off datas).length (renderSegs segLoop mode k off datas) = some (segsEmitted mode k off datas) := by
@@ -124,16 +153,9 @@ theorem parseN_segs (mode : Mode) : ∀ (datas : List DataSeg) (k off : Nat),
   | nil => intro k off; simp [renderSegs, segsEmitted, parseN]
   | cons seg rest ih =>
     intro k off
-    simp only [renderSegs, runSeg_gen, segsEmitted]
-    cases he : segEmitted mode k off seg with
-    | none =>
-      rw [segShape_nil mode k off seg he]
-      simpa using ih (k + 1) (off + seg.bytes.length)
-    | some e =>
-      obtain ⟨h1, h2⟩ := parseOne_seg mode k off seg e he (renderSegs segLoop mode (k + 1) (off + seg.bytes.length) rest)
-      simp only [Option.toList, List.cons_append, List.nil_append, List.length_cons]
-      rw [parseN_cons _ _ _ e h1 h2, ih]
-      rfl
+    simp only [renderSegs, runSeg_gen, segsEmitted, List.length_append]
+    rw [Nat.add_comm, parseN_seg, ih]
+    rfl
 
 theorem parseN_mems (imports : Nat) (shared : List Bool) (tail : List Tok) (es : List Emitted) (n : Nat) (ht : parseN n tail = some es) :
     ∀ (mems : List (Nat × Nat)) (j : Nat),
@@ -290,10 +312,10 @@ def bytesLen (segs : List DataSeg) : Nat := (segs.flatMap (·.bytes)).length
 theorem drop_take_mid {α} (pre mid post : List α) : ((pre ++ mid ++ post).drop pre.length).take mid.length = mid := by
   simp
 
-/-- the statement printed for segment `seg` of `d.datas = pre ++ seg :: post` does what `loadData` does: in the external modes the bytes
+/-- the statements printed for segment `seg` of `d.datas = pre ++ seg :: post` do what `loadData` does: in the external modes the bytes
     at `ds + (total length of pre)` ARE the segment's bytes, in arrays mode `d<|pre|>` is the segment's array -/
 theorem exec_seg (mode : Mode) (d : ModDesc) (pre : List DataSeg) (seg : DataSeg) (post : List DataSeg) (hd : d.datas = pre ++ seg :: post) (s : St) :
-    foldM' (exec d (sourcesOf mode d)) s (segEmitted mode pre.length (bytesLen pre) seg).toList = loadData d s seg := by
+    foldM' (exec d (sourcesOf mode d)) s (segEmitted mode pre.length (bytesLen pre) seg) = loadData d s seg := by
   have hblob : (sourcesOf mode d).blob = pre.flatMap (·.bytes) ++ seg.bytes ++ post.flatMap (·.bytes) := by
     simp [sourcesOf, blobOf_gen, hd, List.flatMap_append, List.flatMap_cons]
   have harr : ((sourcesOf mode d).arrays[pre.length]?).join = some seg.bytes := by
@@ -310,7 +332,7 @@ theorem exec_seg (mode : Mode) (d : ModDesc) (pre : List DataSeg) (seg : DataSeg
     have hfit : bytesLen pre + seg.bytes.length ≤ (sourcesOf mode d).blob.length := by
       rw [hblob]; simp [bytesLen]
     have bind_ret : ∀ (x : Out St), (x >>= fun s' => Out.val s') = x := by intro x; cases x <;> rfl
-    cases mode <;> simp [segEmitted, hp, isExt, foldM', exec, harr, hslice, hfit, bind_ret]
+    cases mode <;> simp [segEmitted, loadEmitted, hp, isExt, foldM', exec, harr, hslice, hfit, bind_ret]
 
 theorem exec_segs (mode : Mode) (d : ModDesc) : ∀ (rest pre : List DataSeg), d.datas = pre ++ rest → ∀ (s : St),
     foldM' (exec d (sourcesOf mode d)) s (segsEmitted mode pre.length (bytesLen pre) rest) = foldM' (loadData d) s rest := by
